@@ -9,8 +9,8 @@ The second phase of the normal solver rotates the step with the geometry of `Alg
 `Props/C15Improve.lean` about a rotation (`rotate_box`, `rotate_ball`, `fixHit_step`) apply to it verbatim; its last
 statement is a safeguard on the violation.  With `Props/C16Ntcg.lean` for the first phase:
 
-* `nfull_in_box` (`np.sqrt` never below the square root), `nfull_in_ball` (exact square root) — C15 for the solver as a
-  whole, `improve_tcg` on or off;
+* `nfull_in_box`, `nfull_in_ball` (`np.sqrt` never below the square root) — C15 for the solver as a whole, `improve_tcg`
+  on or off;
 * `nfull_never_worse` — **C16: `normal_byrd_omojokun` never returns a step with a larger linearised constraint violation
   than the origin**, whatever `np.sqrt`, the sampling of the angle and the second phase do.
 -/
@@ -136,7 +136,7 @@ theorem nloopB_fst (P : NProb n m p K) (Q : NParams n m K) (O : NOracle n m K) (
 
 /-- **C15, bounds (normal solver as a whole).** -/
 theorem nfull_in_box (P : NProb n m p K) (hW : NWF P) (Q : NParams n m K) (hQ : NQOK P Q) (hT : Q.tiny = 0) (O : NOracle n m K)
-    (hO : NOracleOK P O) (R : IParams K) (hRT : R.tiny = 0) (hS : SqrtUp R) (fuel fuel2 : ℕ) (imp : Bool) (i : Fin n) :
+    (hO : NOracleOK P O) (R : IParams K) (hRT : R.tiny = 0) (hS : SqrtUp R) (hd : 0 ≤ P.delta) (fuel fuel2 : ℕ) (imp : Bool) (i : Fin n) :
     geLo (P.xl i) (nfull P Q O R fuel fuel2 imp i) ∧ leHi (P.xu i) (nfull P Q O R fuel fuel2 imp i) := by
   have hb := ntcg_base P hW Q hQ hT O hO fuel
   unfold nfull
@@ -145,12 +145,13 @@ theorem nfull_in_box (P : NProb n m p K) (hW : NWF P) (Q : NParams n m K) (hQ : 
   · unfold nimprove
     split
     · exact hb.box i
-    · exact niloop_box P hW R hRT hS fuel2 (handover P (nloop P Q O fuel (ninit P O))) (fun j => hb.box j) i
+    · exact rescale_box (geo P) (geo_wf hW) R hd _ (niloop_box P hW R hRT hS fuel2 (handover P (nloop P Q O fuel (ninit P O))) (fun j => hb.box j)) i
   · exact hb.box i
 
-/-- **C15, radius (normal solver as a whole)**, exact square root. -/
+/-- **C15, radius (normal solver as a whole)**, for a square root that is never too small (the step is scaled back onto
+the trust region after the rotations). -/
 theorem nfull_in_ball (P : NProb n m p K) (hW : NWF P) (Q : NParams n m K) (hQ : NQOK P Q) (hT : Q.tiny = 0) (O : NOracle n m K)
-    (hO : NOracleOK P O) (R : IParams K) (hRT : R.tiny = 0) (hE : SqrtExact R) (fuel fuel2 : ℕ) (imp : Bool) :
+    (hO : NOracleOK P O) (R : IParams K) (hS : SqrtUp R) (fuel fuel2 : ℕ) (imp : Bool) :
     nfull P Q O R fuel fuel2 imp ⬝ᵥ nfull P Q O R fuel fuel2 imp ≤ P.delta ^ 2 := by
   have hb := ntcg_base P hW Q hQ hT O hO fuel
   unfold nfull
@@ -159,7 +160,7 @@ theorem nfull_in_ball (P : NProb n m p K) (hW : NWF P) (Q : NParams n m K) (hQ :
   · unfold nimprove
     split
     · exact hb.ball
-    · exact niloop_ball P hW R hRT hE fuel2 (handover P (nloop P Q O fuel (ninit P O))) (fun j => hb.box j) hb.ball
+    · exact rescale_ball R hS P.delta _
   · exact hb.ball
 
 /-- **C16 (normal solver as a whole): the step returned never has a larger linearised constraint violation than the
